@@ -13,6 +13,7 @@ reopen <path> <virt_bits> <how>      > reopen ok     (the same context is given 
 page <as> <frame>                    > page ok <idx> <pfn> 1 | page nodata
 rd <as> <addr>                       > rd ok <hex of 8 bytes> | rd nodata -
 conv <from> <to> <addr>              > conv ok <addr> | conv fail
+openf <n> <P|M|-> <k> <path> <vbits> > open ok | open system      (`open` with the k-th realloc of that index failing)
 reinit <fetch> <os> <key> <kind> <value>   > reinit ok ok|fail|-
       an option change (flags the translation dirty); fetch=1: followed by kdump_get_addrxlat,
       whose set-up succeeds (os=0), fails after the wipe (os=1) or before it (os=2)
@@ -110,6 +111,17 @@ partial def loop (h : IO.FS.Stream) (st : St) : IO Unit := do
   | ["open", _, _] =>
     -- a new context; the harness sets the paging mode and fetches the translation handles
     match st.pending.bind (openCtx allOk allOk junk junk {}) with
+    | some c =>
+      IO.println "> open ok"
+      let c := (fetchXlat .ok { c with x := setOpt c.x }).2
+      loop h { st with file := c.file, xlat := c.x, stored := c.xenXlat }
+    | none => IO.println "> open system"; loop h { st with file := none, xlat := {}, stored := false }
+  | ["openf", _, mp, k, _, _] =>
+    -- a new context; the k-th realloc of the guest-frame (P) or machine-frame (M) index fails
+    let fa := k.toNat!
+    let okP : Nat → Bool := fun i => !(mp == "P" && i + 1 == fa)
+    let okM : Nat → Bool := fun i => !(mp == "M" && i + 1 == fa)
+    match st.pending.bind (openCtx okP okM junk junk {}) with
     | some c =>
       IO.println "> open ok"
       let c := (fetchXlat .ok { c with x := setOpt c.x }).2
